@@ -1174,7 +1174,12 @@ class Engine:
                                    if cl.text not in seen and not (cl.props and "VALUE" in cl.props)]
       for cl in clauses:
         if cl.text in c.caller_assumed:
-          self.abstracted.add(f"assumed clause of {c.qual} (not proved from its body): {cl.text}")
+          where = getattr(c, "proved_by_aspect", {}).get(cl.text)
+          if where:
+            self.abstracted.add(f"clause of {c.qual} used at a call site; proved under the function's second contract "
+                                f"{where} (the link between the two statements is by inspection): {cl.text}")
+          else:
+            self.abstracted.add(f"assumed clause of {c.qual} (not proved from its body): {cl.text}")
         st.assume(self.truthy(st, self.ev(cl.node, st)))
       for gname, expr in c.effects:
         st.ghost[gname] = self.ev(ast.parse(expr, mode="eval").body, st)
@@ -1561,6 +1566,10 @@ class Engine:
       if (isinstance(t, ast.Name) and self.cur is not None and len(st.frames) == 1 and not st.spec
           and t.id in getattr(self.cur, "on_assign", {})):
         self.run_ghost(st, self.cur.on_assign[t.id], {}, f"{self.cur.qual}/at-assign:{t.id}@{self.loc(s)}", s.lineno)
+      nkey = getattr(self, "name_assign_ord", {}).get(id(s))
+      if (nkey is not None and isinstance(t, ast.Name) and self.cur is not None and len(st.frames) == 1 and not st.spec
+          and nkey in getattr(self.cur, "on_assign", {})):
+        self.run_ghost(st, self.cur.on_assign[nkey], {}, f"{self.cur.qual}/at-assign:{nkey}", s.lineno)
       key = getattr(self, "sub_assign_ord", {}).get(id(s))
       if (key is not None and isinstance(t, ast.Subscript) and self.cur is not None and len(st.frames) == 1
           and not st.spec and key in getattr(self.cur, "on_assign", {})):
@@ -2238,8 +2247,32 @@ class Engine:
                         "effect-free outside them and not to raise")
     assigned = self.assigned_names([s])
     roots = self.mutated_roots(s.body, st)
+    for n in sorted(lc.get("append_only", ())):
+      # a list that the region only touches through `n.append(...)` statements: after the region it is some extension
+      # of what it was (prefix kept, length not smaller)
+      uses = [nd for nd in ast.walk(ast.Module(body=s.body, type_ignores=[])) if isinstance(nd, ast.Name) and nd.id == n]
+      apps = [nd for nd in ast.walk(ast.Module(body=s.body, type_ignores=[]))
+              if isinstance(nd, ast.Expr) and isinstance(nd.value, ast.Call) and isinstance(nd.value.func, ast.Attribute)
+              and nd.value.func.attr == "append" and isinstance(nd.value.func.value, ast.Name) and nd.value.func.value.id == n]
+      in_args = [u for a in apps for u in ast.walk(ast.Module(body=[ast.Expr(value=x) for x in a.value.args], type_ignores=[]))
+                 if isinstance(u, ast.Name) and u.id == n]
+      cur = st.frame.env.get(n)
+      if len(uses) != len(apps) + len(in_args) or in_args or n in assigned or not (
+          isinstance(cur, Ptr) and isinstance(st.deref(cur), HList)):
+        raise Unsupported(f"abstract loop {ordinal}: {n} is not used append-only")
+      o = st.deref(cur)
+      if not o.symbolic:
+        self.th.to_symbolic_list(self, st, o)
+      old_len, old_rep, et = o.length, o.rep, o.elem_t
+      self.havoc_value(st, cur, n, lc["types"].get(n))
+      o = st.deref(cur)
+      if parse_type(et) != "int" or parse_type(o.elem_t) != "int":
+        raise Unsupported(f"abstract loop {ordinal}: append-only list {n} must be a list of ints")
+      q = z3.Int(V.fresh_name("apq"))
+      st.assume(to_z3(o.length) >= to_z3(old_len),
+                z3.ForAll([q], z3.Implies(z3.And(q >= 0, q < to_z3(old_len)), z3.Select(o.rep, q) == z3.Select(old_rep, q))))
     for n in sorted(assigned | roots):
-      if n in lc.get("keep", ()):
+      if n in lc.get("keep", ()) or n in lc.get("append_only", ()):
         continue
       decl = lc["types"].get(n)
       cur = st.frame.env.get(n)
@@ -2397,7 +2430,9 @@ class Engine:
         return dict(status="missing", reason=f"{c.target}: loop ordinal {k} does not exist")
     # loops declared `independent` (per-artifact loops, C17): no variable may carry information from one iteration to
     # a later one except the declared write-only accumulators
-    if self.prop in (None, "C17") and not getattr(self, "value_pass", False):
+    if not getattr(self, "value_pass", False):
+      # (emitted under every property: "flagged exactly when ..." for one artifact presupposes that nothing is carried
+      # over from the artifacts judged before it)
       for k, lc in c.loops.items():
         if lc.get("independent"):
           ok = set(lc.get("carried_ok", ()))
@@ -2405,16 +2440,23 @@ class Engine:
             if name not in ok:
               self.emit(State([]), "frame", f"{c.qual}/loop{k}/independent:no state carried between iterations "
                         f"(variable {name} is read before it is set in an iteration and written in the loop)", False,
-                        clause=f"iterations of loop {k} of {c.qual} are independent", line=ln, props={"C17"})
+                        clause=f"iterations of loop {k} of {c.qual} are independent", line=ln, props=None)
           self.emit(State([]), "frame", f"{c.qual}/loop{k}/independent:checked", True,
-                    clause=f"iterations of loop {k} of {c.qual} are independent", props={"C17"})
+                    clause=f"iterations of loop {k} of {c.qual} are independent", props=None)
     # hook sites must exist: a hook whose site vanished would silently drop its obligations
     assigned_here = {t.id for nd in ast.walk(fn) if isinstance(nd, ast.Assign) for t in nd.targets if isinstance(t, ast.Name)}
     # element assignments `name[...] = ...` are addressed as "name#k": the k-th such statement in source order (k from 0)
     self.sub_assign_ord = {}
+    self.name_assign_ord = {}      # plain assignments `name = ...` are also addressable as "name@k" (k-th in source order)
     counts = {}
+    ncounts = {}
     for nd in sorted((n for n in ast.walk(fn) if isinstance(n, ast.Assign)), key=lambda n: (n.lineno, n.col_offset)):
       for t in nd.targets:
+        if isinstance(t, ast.Name):
+          k = ncounts.get(t.id, 0)
+          ncounts[t.id] = k + 1
+          self.name_assign_ord[id(nd)] = f"{t.id}@{k}"
+          assigned_here.add(f"{t.id}@{k}")
         if isinstance(t, ast.Subscript) and isinstance(t.value, ast.Name):
           k = counts.get(t.value.id, 0)
           counts[t.value.id] = k + 1
